@@ -188,7 +188,27 @@ fn mon_c01(snap: &Snap, armed: &mut BTreeMap<String, u64>) -> Vec<(String, Strin
                 None => false,
             }
         };
-        if info.eof && info.calls == 0 && !snap.stop_requested() && any_worker_alive && snap.server_done.is_none() && !lost_with_its_worker {
+        // "at least one worker is alive" refers to the moment the connection was given up: for a
+        // connection the accept loop held after failed sends, that is its last failed send
+        let alive_when_given_up = match snap.log.iter().rposition(|(_, _, r)| matches!(r, Rec::DispatchFailed { conn: Some(x) } if *x == c)) {
+            Some(p) if info.phase == Phase::Held => {
+                let mut alive = std::collections::BTreeSet::new();
+                for (_, _, r) in &snap.log[..=p] {
+                    match r {
+                        Rec::FactoryNew { slot, .. } => {
+                            alive.insert(*slot);
+                        }
+                        Rec::WorkerGone { slot } | Rec::WorkerDying { slot } => {
+                            alive.remove(slot);
+                        }
+                        _ => {}
+                    }
+                }
+                !alive.is_empty()
+            }
+            _ => any_worker_alive,
+        };
+        if info.eof && info.calls == 0 && !snap.stop_requested() && any_worker_alive && alive_when_given_up && snap.server_done.is_none() && !lost_with_its_worker {
             out.push((
                 "C01:discarded-while-running".to_string(),
                 format!("connection {c} (listener {}) was closed by the server without ever reaching a service call, while the server is running and a worker is alive (phase {:?})", info.listener, info.phase),
@@ -205,6 +225,26 @@ fn mon_c01(snap: &Snap, armed: &mut BTreeMap<String, u64>) -> Vec<(String, Strin
                     *armed.entry("quiescent_states_with_a_worker_shutting_down".into()).or_insert(0) += 1;
                     if v.queued > 0 {
                         out.push(("C01:queued-connection-not-released-by-shutting-down-worker".to_string(), format!("quiescent: worker {} is shutting down and still holds {} queued connection(s) that are neither served nor closed", w.idx, v.queued)));
+                    }
+                }
+            }
+        }
+    }
+    // liveness: a connection that sits in the queue of a live, running worker whose services
+    // are all ready is handed to its service; at a quiescent state nothing will do that any more
+    if snap.quiescent && snap.server_done.is_none() && !snap.stop_requested() {
+        let n_svc = snap.modes.iter().map(|((_, v), _)| *v + 1).max().unwrap_or(1);
+        for (c, info) in snap.conns.iter().enumerate() {
+            if let Phase::Queued(idx) = info.phase {
+                if let Some(w) = snap.live_worker(idx) {
+                    let running = w.view.as_ref().map_or(false, |v| v.state != "shutdown");
+                    let all_ready = (0..n_svc).all(|v| snap.mode(w.slot, v) == Mode::Ready);
+                    if running && all_ready && !info.eof {
+                        *armed.entry("quiescent_states_checked_for_stuck_queued_connections".into()).or_insert(0) += 1;
+                        out.push((
+                            "C01:queued-connection-never-served".to_string(),
+                            format!("quiescent (no wake-up pending anywhere): connection {c} sits in the queue of worker {idx} (state {:?}), which is alive, not shutting down, with every service ready - nothing will hand it to its service", w.view.as_ref().map(|v| v.state)),
+                        ));
                     }
                 }
             }
@@ -396,6 +436,21 @@ fn mon_c05(snap: &Snap, limit: usize, armed: &mut BTreeMap<String, u64>) -> Vec<
         return out;
     }
     let Some(a) = &snap.accept else { return out };
+    // every pause / resume that was acknowledged has reached the accept loop by now: the loop's
+    // state is the one the last of them asks for
+    let pr: Vec<&(Ev, bool, bool)> = snap.cmds.iter().filter(|(k, _, _)| matches!(k, Ev::Pause | Ev::Resume)).collect();
+    if !pr.is_empty() && pr.iter().all(|(_, done, _)| *done) && !a.queue.iter().any(|q| q == "Pause" || q == "Resume") {
+        *armed.entry("quiescent_states_with_every_pause_and_resume_acknowledged".into()).or_insert(0) += 1;
+        let want = matches!(pr.last().unwrap().0, Ev::Pause);
+        if a.paused != want {
+            let seq: Vec<String> = pr.iter().map(|(k, _, _)| format!("{:?}", k)).collect();
+            out.push((
+                if want { "C05:acknowledged-pause-never-took-effect" } else { "C05:acknowledged-resume-never-took-effect" }.to_string(),
+                format!("quiescent: the commands {:?} have all been acknowledged and nothing is queued for the accept loop, yet the loop is paused={} (the last command asks for paused={want})", seq, a.paused),
+            ));
+            return out;
+        }
+    }
     if a.paused || pause_pending(snap) {
         *armed.entry("quiescent_paused_states".into()).or_insert(0) += 1;
         return out;
@@ -826,7 +881,7 @@ impl Spec for SpecImpl {
     }
     fn name(&self) -> String {
         format!(
-            "W={} listeners={:?} L={} N={} cmds={} adv={} inj={} kills={} nested={}{}",
+            "W={} listeners={:?} L={} N={} cmds={} adv={} inj={} kills={} nested={}{}{}{}{}",
             self.cfg.workers,
             self.cfg.listeners.iter().map(explore::lkind_name).collect::<Vec<_>>(),
             self.cfg.limit,
@@ -836,7 +891,10 @@ impl Spec for SpecImpl {
             self.bounds.max_injects,
             self.bounds.kills,
             self.bounds.nested,
-            if self.bounds.nested_generic > 0 { format!(" generic-nesting={}", self.bounds.nested_generic) } else { String::new() }
+            if self.bounds.nested_generic > 0 { format!(" generic-nesting={}", self.bounds.nested_generic) } else { String::new() },
+            if self.cfg.silent_modes { " silent-readiness-changes" } else { "" },
+            if self.cfg.factory_pending > 0 { format!(" factory-pending={}", self.cfg.factory_pending) } else { String::new() },
+            if self.bounds.conn_panics > 0 { format!(" service-future-panics={}", self.bounds.conn_panics) } else { String::new() }
         )
     }
     fn check(&self, snap: &Snap, armed: &mut BTreeMap<String, u64>) -> Vec<(String, String)> {
@@ -855,7 +913,7 @@ impl Spec for SpecImpl {
 }
 
 fn cfg(workers: usize, listeners: &[LKind], limit: usize) -> Config {
-    Config { workers, listeners: listeners.to_vec(), limit, shutdown_timeout_s: 2, log_ready: false }
+    Config { workers, listeners: listeners.to_vec(), limit, shutdown_timeout_s: 2, log_ready: false, silent_modes: false, factory_pending: 0 }
 }
 
 fn specs_for(prop: &'static str, tier: Tier) -> Vec<SpecImpl> {
@@ -875,6 +933,9 @@ fn specs_for(prop: &'static str, tier: Tier) -> Vec<SpecImpl> {
             v.push(mk(cfg(2, &[Uds], 1), Bounds { connects: 3, kills: 1, ..Default::default() }));
             // completions while paused: the notification must not be lost
             v.push(mk(cfg(1, &[Uds], 1), Bounds { connects: 3, cmds: vec![Ev::Pause, Ev::Resume], max_cmds: 2, ..Default::default() }));
+            // a connection's service future panics: its slot is released all the same
+            v.push(mk(cfg(1, &[Uds], 1), Bounds { connects: 3, conn_panics: 1, ..Default::default() }));
+            v.push(mk(cfg(1, &[Uds], 2), Bounds { connects: 4, conn_panics: 2, ..Default::default() }));
             if !q {
                 v.push(mk(cfg(2, &[Uds, Tcp], 1), Bounds { connects: 4, connect_listeners: vec![0, 1], nested: 1, ..Default::default() }));
                 v.push(mk(cfg(2, &[Uds], 2), Bounds { connects: 4, cmds: vec![Ev::Pause, Ev::Resume], max_cmds: 3, ..Default::default() }));
@@ -907,6 +968,12 @@ fn specs_for(prop: &'static str, tier: Tier) -> Vec<SpecImpl> {
                 v.push(mk(cfg(2, &[Uds], 1), Bounds { connects: 3, kills: 1, ..Default::default() }));
                 // services that are not ready / fail their readiness check: queued connections wait, none is lost
                 v.push(mk(cfg(1, &[Uds], 3), Bounds { connects: 2, modes: vec![Mode::Ready, Mode::Pending, Mode::ErrOnce], max_mode_changes: 2, ..Default::default() }));
+                // ... also when the worker only finds out because a connection arrives
+                v.push(mk(Config { silent_modes: true, ..cfg(1, &[Uds], 3) }, Bounds { connects: 2, modes: vec![Mode::Ready, Mode::Pending, Mode::ErrOnce], max_mode_changes: 2, ..Default::default() }));
+                // two faults in sequence (the first repair permutes the handle order)
+                v.push(mk(cfg(2, &[Uds], 1), Bounds { connects: 2, kills: 2, completes: false, ..Default::default() }));
+                // a service future panics
+                v.push(mk(cfg(1, &[Uds], 2), Bounds { connects: 3, conn_panics: 1, ..Default::default() }));
             } else {
                 v.push(mk(cfg(2, &[Uds], 1), Bounds { connects: 4, kills: 1, ..Default::default() }));
                 v.push(mk(cfg(3, &[Uds], 1), Bounds { connects: 4, kills: 1, ..Default::default() }));
@@ -926,6 +993,8 @@ fn specs_for(prop: &'static str, tier: Tier) -> Vec<SpecImpl> {
             }
             // rotation after a worker was replaced (handle order changes)
             v.push(mk(cfg(2, &[Uds], 1), Bounds { connects: 4, kills: 1, ..Default::default() }));
+            // pause / resume must not hand anything to a saturated worker
+            v.push(mk(cfg(2, &[Uds], 1), Bounds { connects: 3, cmds: vec![Ev::Pause, Ev::Resume], max_cmds: 2, ..Default::default() }));
             if !q {
                 v.push(mk(cfg(3, &[Uds], 1), Bounds { connects: 4, kills: 1, ..Default::default() }));
                 v.push(mk(cfg(2, &[Uds], 2), Bounds { connects: 5, kills: 1, ..Default::default() }));
@@ -940,6 +1009,8 @@ fn specs_for(prop: &'static str, tier: Tier) -> Vec<SpecImpl> {
                     v.push(mk(cfg(1, &[k], 2), Bounds { connects: 2, cmds: cmds.clone(), max_cmds: 3, ..Default::default() }));
                     v.push(mk(cfg(1, &[k], 2), Bounds { connects: 2, injects: inj(0), max_injects: 1, advances: vec![510], max_advances: 2, cmds: cmds.clone(), max_cmds: 1, ..Default::default() }));
                 }
+                // a saturated worker frees a slot while the server is paused
+                v.push(mk(cfg(1, &[Uds], 1), Bounds { connects: 2, cmds: cmds.clone(), max_cmds: 2, ..Default::default() }));
                 // back-off overlapping repeated pause/resume
                 v.push(mk(cfg(1, &[Uds], 2), Bounds { connects: 2, injects: vec![(0, ErrKind::Emfile)], max_injects: 1, cmds: cmds.clone(), max_cmds: 3, ..Default::default() }));
                 // back-off of one listener while the other keeps the accept loop busy; clock in steps below the back-off
@@ -980,6 +1051,11 @@ fn specs_for(prop: &'static str, tier: Tier) -> Vec<SpecImpl> {
         "C07" => {
             let modes = vec![Mode::Ready, Mode::Pending, Mode::ErrOnce];
             let c7 = |n: usize| Config { log_ready: true, ..cfg(1, &vec![Uds; n], 8) };
+            // readiness changes the worker only notices when something else wakes it; re-created
+            // services whose `new_service` future is not ready at once
+            v.push(mk(Config { silent_modes: true, ..c7(1) }, Bounds { connects: 2, modes: modes.clone(), max_mode_changes: 2, ..Default::default() }));
+            v.push(mk(Config { factory_pending: 1, ..c7(1) }, Bounds { connects: 2, modes: modes.clone(), max_mode_changes: 2, ..Default::default() }));
+            v.push(mk(Config { factory_pending: 2, silent_modes: true, ..c7(2) }, Bounds { connects: 2, connect_listeners: vec![0, 1], modes: vec![Mode::Ready, Mode::ErrOnce], max_mode_changes: 2, ..Default::default() }));
             if q {
                 v.push(mk(c7(1), Bounds { connects: 3, modes: modes.clone(), max_mode_changes: 2, ..Default::default() }));
                 v.push(mk(c7(2), Bounds { connects: 3, connect_listeners: vec![0, 1], modes: modes.clone(), max_mode_changes: 2, ..Default::default() }));
@@ -1120,7 +1196,9 @@ pub fn run(args: &Args) -> i32 {
         specs = specs.into_iter().enumerate().filter(|(i, _)| *i == only).map(|(_, s)| s).collect();
     }
     let wall_cap = Duration::from_secs(args.opt_usize("wallcap", args.tier.pick(120, 1800)) as u64);
-    let per_spec_cap = wall_cap / specs.len().max(1) as u32;
+    // a configuration may use whatever is left of the budget except a reserve for those after it
+    let reserve = Duration::from_secs(args.tier.pick(3, 60));
+    let run_started = std::time::Instant::now();
     let mut total_states = 0;
     let mut total_tr = 0;
     let mut total_exec = 0;
@@ -1129,6 +1207,8 @@ pub fn run(args: &Args) -> i32 {
     let mut key_warnings: Vec<String> = vec![];
     for (i, spec) in specs.iter().enumerate() {
         let keycheck = args.opt_usize("keycheck", args.tier.pick(200, 100)) as u64;
+        let after = (specs.len() - 1 - i) as u32;
+        let per_spec_cap = wall_cap.saturating_sub(run_started.elapsed()).saturating_sub(reserve * after).max(wall_cap / specs.len().max(1) as u32);
         let (stats, found, machinery) = explore::bfs_opt(spec, args.threads, args.seed, per_spec_cap.max(Duration::from_secs(5)), keycheck);
         if !machinery.is_empty() {
             for m in &machinery {
@@ -1208,6 +1288,8 @@ fn parse_ev(s: &str) -> Ev {
         Ev::Connect(num(r))
     } else if let Some(r) = s.strip_prefix("Complete(") {
         Ev::Complete(num(r))
+    } else if let Some(r) = s.strip_prefix("Fail(") {
+        Ev::Fail(num(r))
     } else if s == "Pause" {
         Ev::Pause
     } else if s == "Resume" {
